@@ -129,6 +129,12 @@ def make_response(req, spec):
             lines.append('%s:%s\r\n%s%s%s' % (nm, ows[0], spec.get('fold_ws', ' '), v, ows[0]))
         else:
             lines.append('%s:%s%s%s' % (nm, ows[1], v, ows[0]))
+    if spec.get('colonless'):
+        # a header line without a colon (garbage a lenient parser skips); position: after the status line / last
+        if spec['colonless'] == 'first':
+            lines.insert(1, 'X-Garbage-without-colon')
+        else:
+            lines.append('just some words')
     head = '\r\n'.join(lines)
     pad_to = spec.get('pad_to')
     if pad_to is not None:
